@@ -30,6 +30,19 @@ CHECKS = {
                 "beyond the bound, the tail scanner's string windows and pysam's CIGAR decoding are outside the claim.",
         "design": "3 C16",
     },
+    "C15": {
+        "text": "Bounded symbolic verification of the intermediate-file format: the real write_*/read_* primitives and the "
+                "serialize/deserialize methods of MatchEvent, IsoformMatch, ReadAssignment, BasicReadAssignment, GeneInfo (header) and "
+                "the TmpFileAssignmentPrinter / Normal+Quick loaders run on a symbolic byte stream; every numeric field is symbolic over "
+                "its whole documented domain, enum members and strings by complete case split over a catalogue. z3 proves field-wise "
+                "round trip, exact byte consumption, byte alignment of the abridged reader with the full format and its agreement with "
+                "the in-memory (--high_memory) record, for record shapes up to 2 exons x 2 matches x 2 events x 2 profile entries and "
+                "streams of up to 4 records.",
+        "note": "Trusted: z3, symx proxies, the contract model of int.to_bytes/from_bytes and of single-bit masks (vlib/symbytes.py). "
+                "Strings are concrete catalogue members; longer lists than the shapes listed and the --read_assignments re-run of the "
+                "whole pipeline are outside the claim.",
+        "design": "3 C15",
+    },
 }
 
 NOT_BUILT = "check not built yet (build in progress, see DESIGN.md section 5); no claim is made"
